@@ -7,6 +7,7 @@ import (
 	"regexp"
 	"sort"
 	"strings"
+	"unicode"
 
 	"github.com/antlr/antlr4/runtime/Go/antlr/v4"
 	parser "github.com/modernizing/coca/languages/java"
@@ -104,6 +105,10 @@ func refOf(text string) fileRef {
 			id = c.Identifier()
 		case *parser.TypeParameterContext:
 			id = c.Identifier()
+		case *parser.ElementValuePairContext:
+			id = c.Identifier() // `@Ann(value = 1)`: the name of an annotation element
+		case *parser.InnerCreatorContext:
+			id = c.Identifier() // `outer.new Inner()`: a member of outer's type
 		}
 		if id != nil {
 			declared[id.GetStart().GetTokenIndex()] = true
@@ -113,9 +118,42 @@ func refOf(text string) fileRef {
 		}
 	}
 	walk(cu)
+	// tokens of the default channel, to look at the neighbours of an identifier
+	var sig []antlr.Token
 	for _, t := range stream.GetAllTokens() {
+		if t.GetChannel() == antlr.TokenDefaultChannel {
+			sig = append(sig, t)
+		}
+	}
+	for k, t := range sig {
 		if t.GetTokenType() != parser.JavaLexerIDENTIFIER || declared[t.GetTokenIndex()] {
 			continue
+		}
+		// the tail of a qualified name or a member behind `.` / `::` (`a.B`, `x.<T>b()`, `Foo::i`) is looked up
+		// in what stands before it, never among the imports
+		j := k - 1
+		if j >= 0 && sig[j].GetText() == ">" {
+			// explicit type arguments between the dot and the member: x.<A, B<C>>m()
+			for depth := 0; j >= 0; j-- {
+				if sig[j].GetText() == ">" {
+					depth++
+				} else if sig[j].GetText() == "<" {
+					depth--
+					if depth == 0 {
+						j--
+						break
+					}
+				}
+			}
+		}
+		if j >= 0 && (sig[j].GetText() == "." || sig[j].GetText() == "::") {
+			continue
+		}
+		// the head of a dotted chain written in lower case may as well be a package (`a.b.String`)
+		if k+1 < len(sig) && sig[k+1].GetText() == "." {
+			if r := []rune(t.GetText()); len(r) > 0 && !unicode.IsUpper(r[0]) {
+				continue
+			}
 		}
 		in := false
 		for _, s := range decl {
